@@ -2,8 +2,7 @@ use crate::parse::{token, ParseCtx};
 use bytes::Bytes;
 use bytesstr::BytesStr;
 use internal::IResult;
-use nom::branch::alt;
-use nom::bytes::complete::{tag_no_case, take_while1};
+use nom::bytes::complete::take_while1;
 use nom::combinator::map;
 use std::fmt;
 
@@ -39,14 +38,11 @@ macro_rules! methods {
             $(pub const $ident : Self = Self(Repr :: $ident );)+
 
             pub fn from_parse(src: &Bytes, slice: &str) -> Self {
-                if let Ok((_, repr)) = alt((
-                   $(
-                   map(tag_no_case($print), |_| Repr::$ident),
-                   )*
-                ))(slice) as IResult<&str, Repr> {
-                    Self(repr)
-                } else {
-                    Self(Repr::Other(BytesStr::from_parse(src, slice)))
+                // method names are case sensitive tokens (RFC 3261 7.1), a token is one of the
+                // well known methods only if it is equal to its name, `INVITEX` is an extension
+                match slice {
+                    $($print => Self(Repr::$ident),)*
+                    _ => Self(Repr::Other(BytesStr::from_parse(src, slice))),
                 }
             }
         }
